@@ -187,7 +187,12 @@ func (c *bfCtx) stmts(list []ast.Stmt) string {
 				g.bad(st, "unsupported if-init")
 			}
 			if x, ok := writeCall(as.Rhs[0]); ok {
-				// n, err := w.Write(header): the bytes are out; the error branch is the writer's, not the codec's
+				// n, err := w.Write(header): the bytes are out; the error branch is the writer's, not the codec's —
+				// provided nothing else happens afterwards (no second write, no retry, no other effect)
+				c.tailPure(append(append([]ast.Stmt{}, st.Body.List...), rest...), st)
+				if st.Else != nil {
+					c.tailPure([]ast.Stmt{st.Else}, st)
+				}
 				return "some " + x
 			}
 			ce, ok := as.Rhs[0].(*ast.CallExpr)
@@ -222,6 +227,7 @@ func (c *bfCtx) stmts(list []ast.Stmt) string {
 			// n, err := w.Write(header)
 			if len(st.Rhs) == 1 {
 				if x, ok := writeCall(st.Rhs[0]); ok {
+					c.tailPure(rest, st)
 					return "some " + x
 				}
 			}
@@ -310,3 +316,26 @@ func (c *bfCtx) stmts(list []ast.Stmt) string {
 }
 
 func (c *bfCtx) expr(e ast.Expr) string { return c.g.expr(e) }
+
+// tailPure: what follows the single write may only build the result (conversions, error construction, returns):
+// any other call, loop, goroutine or second write means the bytes handed to the connection are no longer just `x`
+func (c *bfCtx) tailPure(list []ast.Stmt, at ast.Node) {
+	for _, s := range list {
+		ast.Inspect(s, func(n ast.Node) bool {
+			switch x := n.(type) {
+			case *ast.ForStmt, *ast.RangeStmt, *ast.GoStmt, *ast.DeferStmt, *ast.SelectStmt, *ast.SendStmt:
+				c.g.bad(x, "statement after the write to the connection")
+			case *ast.CallExpr:
+				if tv, ok := c.g.p.info.Types[x.Fun]; ok && tv.IsType() {
+					return true
+				}
+				switch types.ExprString(x.Fun) {
+				case "fmt.Errorf", "errors.New", "errors.Wrap", "errors.Wrapf", "msgErr":
+					return true
+				}
+				c.g.bad(x, "call %s after the write to the connection", types.ExprString(x.Fun))
+			}
+			return true
+		})
+	}
+}
